@@ -123,8 +123,9 @@ pub fn gen_text_from_model(r: &mut Rng, m: &ModelData, max_len: usize) -> String
 
 pub fn gen_model(r: &mut Rng, with_tags: bool) -> ModelData {
     // windows: mostly small, sometimes large (>= 8: entries longer than the fixed length AND longer than the 7-slot padding)
-    let cw = if r.below(4) == 0 { 6 + r.below(6) as u8 } else { 1 + r.below(5) as u8 };
-    let tw = if r.below(5) == 0 { 5 + r.below(6) as u8 } else { 1 + r.below(4) as u8 }; // cached (<=3) and uncached type scorer
+    // ... and now and then one of the extremes of the u8 range (offsets are kept as i16, relative positions as u8)
+    let cw = if r.below(4) == 0 { if r.below(6) == 0 { [127u8, 128, 200, 255][r.below(4)] } else { 6 + r.below(6) as u8 } } else { 1 + r.below(5) as u8 };
+    let tw = if r.below(5) == 0 { if r.below(6) == 0 { [127u8, 128, 255][r.below(3)] } else { 5 + r.below(6) as u8 } } else { 1 + r.below(4) as u8 }; // cached (<=3) and uncached type scorer
     // character n-grams: random + suffixes of earlier ones (suffix chains must be merged by the predictor)
     let mut cngrams: Vec<Vec<char>> = vec![];
     let n_c = 1 + r.below(6);
